@@ -229,6 +229,21 @@ def alias_mode_programs():
     return out
 
 
+def laundering_programs():
+    """a channel of type T handed to a parameter / forwarded to a provider of type T' for every ordered pair of closely related types (same
+    structure, one mode word different - at the root of a shift, inside it, on a plain type): accepted iff T = T'.  Type equality is the only
+    thing that keeps a channel from being passed off at a mode with more structural rules (C05) or a weaker provider (C06)"""
+    ts = ["rep \\/ lin 1", "rep \\/ aff 1", "rep \\/ mul 1", "rep \\/ rep 1", "mul \\/ lin 1", "aff \\/ lin 1", "lin /\\ aff 1", "lin /\\ rep 1", "lin /\\ lin 1",
+          "aff /\\ rep 1", "lin 1", "aff 1", "mul 1", "rep 1", "lin (1 * 1)", "aff (1 * 1)", "lin +{l : 1}", "rep +{l : 1}",
+          "rep \\/ lin (lin /\\ rep 1)", "rep \\/ lin (lin /\\ aff 1)"]
+    out = []
+    for i, t in enumerate(ts):
+        for j, u in enumerate(ts):
+            out.append(("launder/call-%d-%d" % (i, j), "let d(c : %s) : %s = fwd self c\nlet f(p : %s) : %s = z <- new d(p); fwd self z\n" % (u, u, t, u)))
+            out.append(("launder/fwd-%d-%d" % (i, j), "let g(p : %s) : %s = fwd self p\n" % (t, u)))
+    return out
+
+
 def corpus_texts(tier, seed):
     import rt
     texts = [(p["name"], p["text"]) for p in rt.fixed_corpus()]
@@ -265,6 +280,7 @@ def stage(tier=None, seed=None):
             texts += annotation_programs(rng, 240 if tier == "quick" else 3000)
             texts += shadow_programs()
             texts += alias_mode_programs()
+            texts += laundering_programs()
             muts = token_mutants(texts, rng, 700 if tier == "quick" else 10000)
             cases = cases_for(texts + muts)
             fails, errs, states = validate(cases, work)
